@@ -66,7 +66,7 @@ def build(rnd):
     if adv:
         for _ in range(rnd.choice([0, 1, 1, 2])):
             fields.insert(rnd.randint(0, len(fields)), list(rnd.choice(ADV_FIELDS)))
-    body = [rnd.choice([b"", b"a", b"hello", b"x" * 70, b"0\r\n\r\nGET /smuggled HTTP/1.1\r\n\r\n"]) for _ in range(rnd.choice([0, 0, 1, 2]))]
+    body = [rnd.choice([b"", b"a", b"hello", b"x" * 70, bytes(range(48, 48 + 75)), b"0\r\n\r\nGET /smuggled HTTP/1.1\r\n\r\n"]) for _ in range(rnd.choice([0, 0, 1, 2]))]
     if method in (b"GET", b"HEAD", b"OPTIONS", b"DELETE") and rnd.random() < 0.7:
         body = []
     if body and rnd.random() < 0.15:
@@ -82,9 +82,12 @@ def build(rnd):
         "resp": {"status": rnd.choice([200, 200, 204, 404, 500, 301]),
                  "fields": [list(rnd.choice(FIELDS + [(b"content-length", b"5"), (b"set-cookie", b"a=1"), (b"set-cookie", b"b=2"), (b"connection", b"close"),
                                                       (b"X-Upper", b"1")])) for _ in range(rnd.randint(0, 3))],
-                 "body": [rnd.choice([b"", b"r", b"world", b"y" * 90]) for _ in range(rnd.choice([0, 1, 1, 2]))],
+                 "body": [rnd.choice([b"", b"r", b"world", b"y" * 90, bytes(range(40, 40 + 85))]) for _ in range(rnd.choice([0, 1, 1, 2]))],
                  "trailers": rnd.random() < 0.15, "with_cl": rnd.random() < 0.5},
         "adv": bool(adv), "stream": pair in ("h2-h1", "h3-h1") and rnd.random() < 0.2,
+        # HTTP/2 peers with a small per-stream flow-control window that they reopen piecewise (bodies larger than the
+        # window are sent in several rounds; the translation must still deliver every byte in order, then the end)
+        "win": rnd.choice([None, None, None, 7, 20, 64]),
     }
 
 
@@ -163,11 +166,18 @@ def setup(client_alpn, stream=False):
     return mctx, d, hooks, flows
 
 
-def attach_server(d, conn, proto, servers):
+def h2_peer(client_side, win):
+    import h2.settings
+    p = h2peer.H2Peer(client_side, settings={h2.settings.SettingCodes.INITIAL_WINDOW_SIZE: win} if win else None)
+    p.manual_fc = bool(win)
+    return p
+
+
+def attach_server(d, conn, proto, servers, win=None):
     """attach an independent h2/h3 server peer to a freshly opened upstream connection"""
     if proto == "h2":
         conn.alpn = b"h2"
-        p = h2peer.H2Peer(False)
+        p = h2_peer(False, win)
         servers[conn] = p
         d.on_send[conn] = p.receive
         p.start()
@@ -184,6 +194,8 @@ def pump_peer(d, conn, p):
         return False
     if isinstance(p, h3peer.H3Peer):
         return d.pump_quic(conn)
+    if p.manual_fc:
+        p.ack_all()
     data = p.take()
     if data:
         d.recv(conn, data)
@@ -194,9 +206,9 @@ def pump_peer(d, conn, p):
 def run_h2_client(case, server_kind, client_proto="h2"):
     mctx, d, hooks, flows = setup(client_proto.encode(), stream=bool(case.get("stream")) and server_kind == "h1")
     servers = {}
-    d.on_open = lambda conn: attach_server(d, conn, server_kind, servers)
+    d.on_open = lambda conn: attach_server(d, conn, server_kind, servers, case.get("win"))
     if client_proto == "h2":
-        c = h2peer.H2Peer(True)
+        c = h2_peer(True, case.get("win"))
         c.start()
         d.on_send[mctx.client] = c.receive
         d.start()
@@ -222,7 +234,7 @@ def run_h2_client(case, server_kind, client_proto="h2"):
             c.end_stream(SID)
 
     def pump():
-        for _ in range(50):
+        for _ in range(120):
             moved = pump_peer(d, mctx.client, c)
             for conn, p in list(servers.items()):
                 moved = pump_peer(d, conn, p) or moved
@@ -381,7 +393,7 @@ def check_h1_h2(case, ctx):
     servers = {}
 
     sproto = case["pair"].split("-")[1]
-    d.on_open = lambda conn: attach_server(d, conn, sproto, servers)
+    d.on_open = lambda conn: attach_server(d, conn, sproto, servers, case.get("win"))
     d.start()
     body = b"".join(case["body"])
     fields = [tuple(f) for f in case["fields"] if f[0].lower() not in (b"content-length", b"host", b"transfer-encoding") and ref_http1.TOKEN.match(f[0])
@@ -399,7 +411,7 @@ def check_h1_h2(case, ctx):
             head.append(b"Content-Length: %d" % len(body))
         wire = body
     d.recv(mctx.client, b"\r\n".join(head) + b"\r\n\r\n" + wire)
-    for _ in range(20):
+    for _ in range(80):
         moved = False
         for conn, p in list(servers.items()):
             moved = pump_peer(d, conn, p) or moved
